@@ -734,6 +734,8 @@ std::optional<SaslHtMechanism> SaslHtMechanism::fromString(QStringView string)
         if (string.startsWith(ianaHashAlgorithms.at(i))) {
             algorithm = IanaHashAlgorithm(i);
             string = string.mid(ianaHashAlgorithms.at(i).size());
+            // only one algorithm name: "HT-SHA-256SHA-512-NONE" is not a known mechanism
+            break;
         }
     }
     if (!algorithm) {
